@@ -83,6 +83,11 @@ def run_gev(case, R):
     D, lead = case['D'], tuple(case['lead'])
     Px = psd_target(rng, D, lead, case['rank'], case.get('structure', 'dense'))
     Pn = gen.hpd(rng, D, cond=case['cond'], lead=lead, scale=float(10 ** rng.uniform(-2, 2)))
+    nstruct = ['dense', 'dense', 'diagonal', 'white'][case['rs'][-1] % 4 if case['rs'][-1] % 7 else 0]
+    if nstruct == 'diagonal':
+        Pn = Pn * np.eye(D)                       # uncorrelated sensor noise of unequal power: an exactly diagonal noise PSD
+    elif nstruct == 'white':
+        Pn = np.eye(D) * np.trace(Pn, axis1=-2, axis2=-1).real[..., None, None] / D + 0j
     variant = ['c', 'c', 'colmajor', 'real-target', 'fortran'][case['rs'][-1] % 5]
     if variant == 'colmajor':
         # (D, D) blocks stored column-major (e.g. the conjugate-transposed view of a C array, or a loadmat result)
@@ -145,6 +150,10 @@ def run_gev(case, R):
                 continue
             ex = float((((quad(v, Px)[ok] / den[ok]) - Rw[ok]) / Rw[ok]).max())
             R.check('C12.gev', ex <= tol, f'gev/exceeded-by/{name}', f'beamformer {name} has {ex:.3e} (relative) more output SNR than GEV', dev=ex, **info)
+    # the vector obtained first is still the maximiser after all the other beamformers were computed (no result shares a buffer)
+    Rw2 = quad(w, Px) / quad(w, Pn)
+    dv2 = float((np.abs(Rw2 - l1) / l1).max())
+    R.check('C12.gev', dv2 <= tol, 'gev/held-vector-changed', f'the GEV vector obtained first no longer attains lambda_max after other beamformers were computed (rel {dv2:.3e})', dev=dv2, **info)
     if lead or case['cond'] > 10:
         R.mark_nontrivial('gev', D, list(lead), int(np.log10(case['cond'])), case['use_eig'], case['rank'] < D)
     R.sample(dict(lane='gev', **info, rayleigh_dev=dv))
@@ -192,6 +201,9 @@ def run_rank1(case, R):
     if case.get('structure') in ('sparse', 'deadmic'):
         a[..., 0 if rng.uniform() < 0.6 else int(rng.integers(D))] = 0          # steering vector with an exactly vanishing entry
     P = psd_target(rng, D, lead, case['rank'], case.get('structure', 'dense')) if not exact else np.einsum('...a,...b->...ab', a, a.conj()) * 10 ** rng.uniform(-2, 2)
+    if lead and not exact and rng.uniform() < 0.3:
+        # a mixed stack: the first matrix is exactly rank one, the others are not
+        P = P.copy(); P[(0,) * len(lead)] = np.einsum('a,b->ab', a[(0,) * len(lead)], a[(0,) * len(lead)].conj())
     Pn = gen.hpd(rng, D, cond=min(case['cond'], 1e4), lead=lead)
     info = dict(D=D, lead=list(lead), exact_rank_one=exact)
     for which in ('pca', 'pca:trace', 'pca:eigenvalue', 'gev', 'gev:use_eig'):
